@@ -48,7 +48,7 @@ def run(ctx):
     gate = vf.grep_gate()
     if gate:
         ctx.broken.append('forbidden constructs in coq/: ' + '; '.join(gate[:5]))
-    n = 900 if not ctx.thorough() else 1000000
+    n = 450 if not ctx.thorough() else 6000
     rc, out = vf.sh([os.path.join(vf.BIN, 'c13'), '-seed', str(ctx.seed), '-n', str(n), '-tier', ctx.tier,
                      '-repo', vf.REPO, '-out', ctx.out], timeout=3000)
     if rc != 0:
